@@ -234,6 +234,14 @@ func scriptManualSnapshotDivergent() []Event {
 		heal(), isolate(1), sendSnap(2, 3), prop(2), heal(), prop(2))
 }
 
+// scriptCompactBeforeSend: the leader has built a catch-up MsgApp from its storage (stepped
+// rejection, no Ready yet) when its application compacts the log inside the range the message
+// carries; only then does the application call Ready and serialise the message. Explored by
+// replay (NoClone), so the message really shares memory with the storage.
+func scriptCompactBeforeSend() []Event {
+	return seq(camp(1), prop(1), isolate(3), prop(1), prop(1), prop(1), heal(), holdFrom(3), prop(1), pauseReady(1, 1), flush(), compact(1, 0), pauseReady(1, 0), prop(1))
+}
+
 func scriptSnapshotRestart() []Event {
 	return seq(camp(1), prop(1), prop(1), compact(2, 0), crash(2, CrashAppliedZero), isolate(3), prop(1), prop(1), compact(1, 0), heal(), prop(1),
 		crash(3, 0), prop(1), compact(3, 0), crash(3, CrashAppliedZero), prop(1))
@@ -786,6 +794,11 @@ func poolSnapshot(tier string) (p pool) {
 			pg.Cfg = []NodeCfg{c}
 			pg.PropSizes = []int{30, 1, 1, 1}
 			p.dd = append(p.dd, pg)
+		}
+		{
+			cb := ddScn("compact-before-send", 3, ids(3), f, scriptCompactBeforeSend(), k, int(BDrop), 1, int(BDup), 1)
+			cb.NoClone = true
+			p.dd = append(p.dd, cb)
 		}
 		p.dd = append(p.dd, ddScn("manual-snapshot-divergent", 3, ids(3), f, scriptManualSnapshotDivergent(), k, fl...))
 		{
